@@ -80,6 +80,25 @@ def directed_server_histories(rng):
         ops.append(('emit', 'after', 1, 'lobby', None, None, nss[0], None))
         ops.append(('close', 'e1', 'transport error'))
         out.append((cfg, ops))
+    # server-initiated acknowledgements: callback emits answered once, twice, and twice with the duplicate
+    # arriving while the callback of the first is still running (binary ACKs as well)
+    for variant in range(6):
+        ns = ['/', '/chat'][variant % 2]
+        cfg = {'handlers': {ns: {'connect': 1}}, 'ns_handlers': {},
+               'behav': {1: {'arity': 2, 'actions': [], 'outcome': ('ret', None)}}, 'namespaces': [ns],
+               'always_connect': False, 'serializer': 'default'}
+        ops = [('eio_connect', 'e0', {'REMOTE_ADDR': 'e0'}), ('msg', 'e0', server_hist.eio_decode(server_hist.frame(0, ns))),
+               ('emit', 'q', 'x', 'S0', None, None, ns, 1), ('emit', 'q', [1], 'S0', None, None, ns, 2)]
+        ack1 = server_hist.eio_decode(server_hist.frame(3, ns, 1, ['ok']))
+        ack2 = server_hist.eio_decode(server_hist.frame(3, ns, 2, []))
+        ops.append(('msg_nested' if variant >= 2 else 'msg', 'e0', ack1))
+        ops.append(('msg', 'e0', ack1))
+        if variant >= 4:
+            ops.append(('disconnect', 'S0', ns))
+        ops.append(('msg_nested', 'e0', ack2))
+        ops.append(('emit', 'q', None, 'S0', None, None, ns, 3))
+        ops.append(('close', 'e0', 'transport close'))
+        out.append((cfg, ops))
     return out
 
 
